@@ -50,19 +50,19 @@ Qed.
 
 Lemma Sx_cond : forall cpp lq lc rc tc kc ra ta ka rb tb kb,
   Sx cpp rc tc kc -> Sx cpp ra ta ka -> Sx cpp rb tb kb ->
-  kc <= 13 -> ka <= 14 -> kb <= 14 -> (ka = 14 -> hasq ra = false) ->
-  lead_ok ra = true -> rc <> [] -> rb <> [] ->
+  kc <= 13 -> ka <= 14 -> kb <= 14 -> (ka = 14 -> topq ra = false) ->
+  lead_ok ra = true -> rc <> [] -> rb <> [] -> dbal rc ->
   Sx cpp (rc ++ (lq, TQ) :: ra ++ (lc, TColon) :: rb) (B (lq, TQ) tc (B (lc, TColon) ta tb)) 14.
 Proof.
-  intros cpp lq lc rc tc kc ra ta ka rb tb kb IHc IHa IHb Hkc Hka Hkb Hnoq Hlead Hrc Hrb
+  intros cpp lq lc rc tc kc ra ta ka rb tb kb IHc IHa IHb Hkc Hka Hkb Hnoq Hlead Hrc Hrb Hdb
          f d s rest out n Hrk Hd Hn Hlen Hop Hps Hj Hnd Hq Hq14 Hq1 Hz Hc.
   set (Q := (lq, TQ)) in *. set (C := (lc, TColon)) in *.
   set (tree := B Q tc (B C ta tb)) in *.
   destruct n as [|n']; [unfold cont in Hc; rewrite lpn_0 in Hc; discriminate|].
   assert (Hts : forall b, rev (rc ++ Q :: ra ++ C :: rb) ++ b = rev rb ++ C :: rev ra ++ Q :: rev rc ++ b).
   { intros b. rewrite rev_mid. rewrite rev_mid. reflexivity. }
-  assert (Hhq : hasq (rc ++ Q :: ra ++ C :: rb) = true).
-  { rewrite hasq_app. cbn [hasq existsb snd Q is_q]. apply orb_true_r. }
+  assert (Hhq : topq (rc ++ Q :: ra ++ C :: rb) = true).
+  { unfold topq. rewrite (Hdb 0). unfold Q at 1. cbn [topq_d snd Nat.eqb orb]. apply orb_true_r. }
   specialize (Hz eq_refl Hhq). specialize (Hq14 eq_refl).
   rewrite Hts in Hq, Hq14, Hz.
   rewrite !app_length in Hn. cbn [length] in Hn. rewrite !app_length in Hn. cbn [length] in Hn.
